@@ -161,12 +161,16 @@ func c13Catalogue() []c13Call {
 	writes := []string{"", "x", ";", " ", "; ", "ab", "no separator at the end", valid.ErrEndFlag, "a" + valid.ErrEndFlag, "a" + valid.ErrEndFlag + "b", "\x00", "\xff", "explain:", "说明:", strings.Repeat("z", 5000)}
 	for wi, w := range writes {
 		w := w
-		fn := func(errBuf *strings.Builder, validName, objName, fieldName string, tv reflect.Value) { errBuf.WriteString(w) }
+		fn := func(errBuf *strings.Builder, validName, objName, fieldName string, tv reflect.Value) {
+			errBuf.WriteString(w)
+		}
 		d := fmt.Sprintf("user function writes #%d %q", wi, trunc(w, 30))
 		add("VarForFn", d, func() error { return valid.VarForFn("v", fn) })
 		add("VarForFn-int", d, func() error { return valid.VarForFn(7, fn) })
 		add("NewVVar.SetValidFn", d, func() error { return valid.NewVVar().SetRules("w_fn", "to=1~3").SetValidFn("w_fn", fn).Valid("v") })
-		add("MapFn", d, func() error { return valid.MapFn(map[string]string{"a": "1"}, valid.RM{"a": "w_fn"}, valid.Name2FnMap{"w_fn": fn}) })
+		add("MapFn", d, func() error {
+			return valid.MapFn(map[string]string{"a": "1"}, valid.RM{"a": "w_fn"}, valid.Name2FnMap{"w_fn": fn})
+		})
 		add("MapFn+builtin", d, func() error {
 			return valid.MapFn(map[string]string{"a": "1", "b": ""}, valid.RM{"a": "w_fn,to=3~4", "b": "required"}, valid.Name2FnMap{"w_fn": fn})
 		})
